@@ -395,3 +395,64 @@ def run(R):
             R.check(oks, 'C14.R6', 'connect-timeout-applied:%s' % re.sub(r'(::\{closure#\d+\})+$', '', short(bd.path)).split('::')[-1], site(bd, bb),
                     'the connector built here is bounded by self.connect_timeout (set in http_connector(): %r; set at this site: %r)' % (inside, oks and not inside))
 
+
+    # ---------------------------------------------------------------- R7 every layer above Reconnect hands each call down
+    R.describe('C14.R7', 'every tonic layer of the client stack (Channel, Connection, AddOrigin, UserAgent, GrpcTimeout) passes each call to its inner service on every path: Reconnect parks a connect error in poll_ready and hands it to the next call() - a layer that answers a call itself after poll_ready leaves that error parked for a later, unrelated call (and the connection attempt for it is never made)')
+    with R.guard('C14.R7'):
+        LAYERS = {
+            'Channel': (r'<transport::channel::Channel as tower_service::Service<.*>>::call$', None),
+            'Connection': (r'<transport::channel::service::connection::Connection as tower_service::Service<.*>>::call$', None),
+            'UserAgent': (r'<transport::channel::service::user_agent::UserAgent<T> as tower_service::Service<.*>>::call$', None),
+            'GrpcTimeout': (r'<transport::service::grpc_timeout::GrpcTimeout<S> as tower_service::Service<.*>>::call$', None),
+            # AddOrigin refuses every call of a channel whose endpoint URI has no scheme or authority: a property of the endpoint, the
+            # same for every call of that channel (none ever succeeds) - the one accepted skip
+            'AddOrigin': (r'<transport::channel::service::add_origin::AddOrigin<T> as tower_service::Service<.*>>::call$', ('scheme', 'authority')),
+        }
+        n = 0
+        for nm, (pat, skip_fields) in sorted(LAYERS.items()):
+            lb = tonic.body(re.compile(pat))
+            R.saw(lb)
+            ic = [(bb, t) for bb, t in lb.calls(name='call') if t['args'] and arg_root(through_calls(strip_refs(lb.origin(t['args'][0])), {'deref', 'deref_mut'})) == 1]
+            R.check(len(ic) == 1, 'C14.R7', '%s:one-inner-call' % nm, site(lb), 'calls of the inner service in %s::call: %d' % (nm, len(ic)))
+            if len(ic) != 1:
+                continue
+            n += 1
+            cb = ic[0][0]
+            skipping = [rb for rb in lb.return_blocks() if not lb.must_pass(0, rb, [cb])]
+            if not skipping:
+                R.ok('C14.R7', '%s:always-forwards' % nm, site(lb, cb), 'every return of %s::call is behind the inner call' % nm)
+                continue
+            # which conditions lead around the inner call?
+            gs = [(vals, tm) for s_, vals, tm in lb.edge_guards(cb)]
+            okskip = skip_fields is not None and gs and all(any(mentions_field(tm, f) for f in skip_fields) and not term_contains(tm, lambda y: isinstance(y, tuple) and y[:1] == ('arg',) and y[1] == 2) for vals, tm in gs)
+            R.check(okskip, 'C14.R7', '%s:always-forwards' % nm, site(lb, cb), 'a return of %s::call is reachable without the inner call; conditions in front of the inner call: %r' % (nm, [(v, show(tm)[:70]) for v, tm in gs]))
+        R.floor('C14.R7', 'client stack layers read', n, 5)
+
+    # ---------------------------------------------------------------- R8 balanced channel: every change of the endpoint set is handed on
+    R.describe('C14.R8', 'balance_channel: DynamicServiceStream::poll_next turns every received Change into the tower Change of the same kind and key, deciding on nothing but what was received (no remembered set that swallows a re-announced endpoint: after Insert, Remove, Insert of one address the balancer would be left empty and every call would hang)')
+    with R.guard('C14.R8'):
+        dn = tonic.body(re.compile(r'<transport::channel::service::discover::DynamicServiceStream<K> as tokio_stream::Stream>::poll_next$'))
+        R.saw(dn)
+        recv = dn.calls(name='poll_recv')
+        R.check(len(recv) == 1, 'C14.R8', 'one-poll_recv', site(dn), 'poll_recv sites: %d' % len(recv))
+        foreign = []
+        for bb in sorted(dn.live_blocks()):
+            t = dn.term(bb)
+            if t['k'] == 'switch' and not t.get('mac'):
+                o = dn.origin(t['on'])
+                base = mirlib.field_path(o[1])[0] if isinstance(o, tuple) and o[:1] == ('discr',) else None
+                if not is_call(base, name='poll_recv'):
+                    foreign.append((bb, o))
+        for bb, o in foreign:
+            R.bad('C14.R8', 'decides-on-received-change-only', site(dn, bb), 'a branch on %s: whether a change is handed to the balancer depends on something other than the change' % show(o)[:90])
+        if not foreign:
+            R.ok('C14.R8', 'decides-on-received-change-only', site(dn), 'every branch of poll_next is on the value poll_recv returned')
+        for var, nfields in (('Insert', 2), ('Remove', 1)):
+            ag = [x for x in mirlib.aggregates(dn) if (x[3].get('adt') or '').endswith('discover::Change') and x[3].get('variant') == var and 'tower' in (x[3].get('adt') or '')]
+            R.check(len(ag) == 1, 'C14.R8', '%s:built-once' % var, site(dn), 'tower Change::%s built %d times' % (var, len(ag)))
+            for bb, i, p, a, ops in ag:
+                k = show(dn.origin(ops[0]))
+                R.check(term_contains(dn.origin(ops[0]), lambda y: is_call(y, name='poll_recv')) and ('as %s.0' % var) in k, 'C14.R8', '%s:same-key' % var, site(dn, bb, i), 'key = %s' % k[-80:])
+                # .. and returned: Ready(Some(Ok(that)))
+                rts = [show(v) for rb, v in mirlib.returned_terms(dn)]
+                R.check(any(('Ready{Some{Ok{%s{' % var) in r_.replace(' ', '') or ('Ok{%s{' % var) in r_ for r_ in rts), 'C14.R8', '%s:returned' % var, site(dn, bb, i), 'returned values: %r' % [r_[:50] for r_ in rts])
